@@ -439,9 +439,14 @@ theorem C09_compose_only_requests (s : State) (remote : Remote) (mcLocal : Bool)
       · rename_i hq
         simp only [Bool.and_eq_true] at hq
         refine ⟨by simpa [isRequestCode, isRequest] using hq.1, ?_⟩
-        unfold processRequest tokenProcessRequest at h
-        simp only at h
-        split at h <;> simp at h <;> exact h.2.2
+        unfold processRequest at h
+        simp only [List.mem_append] at h
+        rcases h with h | h
+        · unfold fireEmptyAck at h
+          split at h <;> simp [sendBare, sendInitially] at h
+        · unfold tokenProcessRequest at h
+          simp only at h
+          split at h <;> simp at h <;> exact h.2.2
       · split at h
         · dsimp only at h
           unfold processResponse at h
